@@ -376,8 +376,9 @@ fn part_codec() -> PartResult {
         }
     }
     // lines at, just under and over the limit, followed by a normal line
-    for (n, ok) in [(1990usize, true), (1993, true), (1994, false), (2001, false), (4000, false)] {
-        // "PING " + token + CRLF: the codec counts everything before '\n'
+    // "PRIVMSG bob :" (13 bytes) + token + CR before '\n': 1986 is the longest token that fits
+    // into 2000 bytes; the relayed line is longer than the received one (sender prefix)
+    for (n, ok) in [(1900usize, true), (1960, true), (1975, true), (1985, true), (1986, true), (1987, false), (1990, false), (2001, false), (4000, false)] {
         r.evaluations += 1;
         let token = "t".repeat(n);
         let mut w = World::new(Cfg::default().main_config(), 2);
@@ -396,14 +397,20 @@ fn part_codec() -> PartResult {
         let _ = w.settle();
         let mine = w.take_lines(0);
         let bobs = w.take_lines(1);
-        let delivered = bobs.iter().any(|l| l.contains(&token[..20]));
+        // the whole text arrives, not a prefix of it (the relay is longer than what was sent:
+        // the server prepends the sender's prefix)
+        let delivered = bobs.iter().any(|l| l.ends_with(&format!(":{}", token)));
+        let partly = bobs.iter().any(|l| l.contains(&token[..20]));
         let got417 = mine.iter().any(|l| l.contains(" 417 "));
         let _ = ok;
+        if fits && partly && !delivered {
+            r.violations.push(fv("fun:codec", finding("codec:truncated-relay", format!("line of {} bytes (within the limit) was relayed with a different text: received {} bytes", total, bobs.iter().map(|l| l.len()).max().unwrap_or(0))), json!({"len": n})));
+        }
         if fits {
             if !delivered || got417 || !mine.iter().any(|l| l.contains("PONG") && l.contains("after")) {
                 r.violations.push(fv("fun:codec", finding("codec:limit", format!("line of {} bytes (within the limit): delivered={} 417={} replies {:?}", total, delivered, got417, mine)), json!({"len": n})));
             }
-        } else if delivered || !got417 {
+        } else if delivered || partly || !got417 {
             r.violations.push(fv("fun:codec", finding("codec:limit", format!("line of {} bytes (over the limit): delivered={} 417={}", total, delivered, got417)), json!({"len": n})));
         }
         if w.conns.iter().any(|c| matches!(c.life, Life::Panicked(_))) {
